@@ -2,7 +2,7 @@
 // conversion used by `?` gets its vstd spec here (ghost only).
 //@item src/result.rs | enum ZipError ; strip_derive
 //@item src/result.rs | type ZipResult
-//@item src/result.rs | struct InvalidPassword ; strip_derive
+//@item src/result.rs | struct InvalidPassword ; keep_debug
 impl vstd::std_specs::convert::FromSpecImpl<io::Error> for ZipError {
     open spec fn obeys_from_spec() -> bool { true }
     open spec fn from_spec(v: io::Error) -> Self { ZipError::Io(v) }
